@@ -29,7 +29,7 @@ def reference(stations, horizon):
     # top-ups of a finite budget: [(T, m)]: m more parts may be supplied from instant T on
     release = []
     if budget is not None:
-        release = [F(0)] * budget
+        release = [F(0)] * int(budget // 1)         # a non-integral budget covers its whole parts only
         for T, m in sorted(stations[0].get('topups') or []):
             release += [F(T)] * m
         budget = len(release)
